@@ -184,7 +184,7 @@ def groupMemberNames (g : Group N) : Except GenErr (List String) :=
   mapE (fun m => match m with
     | .attr a => .ok a.name
     | .child c => .ok c.name
-    | _ => .error .typeError) g.members
+    | _ => .error .attributeError) g.members
 
 /-- The key / prefix of the struct an element's attributes live in. -/
 def structKey (e : Element N) (spec : Txt) : Txt × Txt :=
@@ -373,7 +373,7 @@ def attrType (dims : List (Txt × Nat)) (vt : VecTypes) (a : Attr N) :
     let tail := [L "  </xs:restriction>", L "</xs:simpleType>"]
     match Facets.get a.facets "pattern" with
     | some (.str p) => .ok ((none, head ++ [L "    <xs:pattern value=\"" ++ xmlEscape p.toList ++ L "\"/>"] ++ tail), vt)
-    | some _ => .error .typeError       -- escape() of a non-string payload (AttributeError)
+    | some _ => .error .attributeError  -- escape() of a non-string payload
     | none =>
       if a.arity.hi = .num a.arity.lo then
         .ok ((none, head ++ [L "    <xs:length value=\"" ++ hiStr a.arity.hi ++ L "\"/>"] ++ tail), vt)
